@@ -507,9 +507,9 @@ package scheduler
 //@   assert before go [C01,C10 deps_ok_at_launch]
 //@        forall j int :: 0 <= j && j < len(g.to[arg0.id]) ==> dep_ok(g.dict[g.to[arg0.id][j]])
 //@   assert before go [C03 running_before_spawn] arg0.data.State.Status == NodeStatusRunning
-//@   assert before (*Node).setStatus#1 [C03,C10 launched_from_none] arg0.data.State.Status == NodeStatusNone && arg1 == NodeStatusRunning
-//@   assert before (*Node).setStatus#1 [C15 below_limit]
-//@        sc.maxActiveRuns > 0 ==> count_running(g, len(g.nodes)) < sc.maxActiveRuns
+//@   assert before (*Node).setStatus [C03,C10 launched_from_none] arg1 == NodeStatusRunning ==> arg0.data.State.Status == NodeStatusNone
+//@   assert before (*Node).setStatus [C15 below_limit]
+//@        arg1 == NodeStatusRunning ==> (sc.maxActiveRuns > 0 ==> count_running(g, len(g.nodes)) < sc.maxActiveRuns)
 //@   assert before context.WithTimeout [C05 run_deadline_is_the_configured_timeout] sc.timeout > 0 && arg1 == sc.timeout
 //@   assert before go [C05 stop_flag_is_consulted_before_every_launch] chk.fresh
 //@   assert before go [C01 launches_graph_node] arg0 == g.nodes[idx + 1]
